@@ -201,6 +201,81 @@ func main() {
 				c.Outcome("equal")
 			}
 		}})
+	extra = append(extra, &drv.Domain{Name: "giant-message-then-continue", Size: 1, Chunk: 1,
+		Desc: "a height-4 SHA2-256 key signs 2 ordinary messages, then is asked to sign a message of 2^32+5 zero bytes (read-only no-reserve mapping), then signs ordinary messages to exhaustion: whatever the giant call answers (signature, error or explicit refusal), it must not return the signature of the 5-byte prefix, and every later signature equals the reference signature at the index it carries, verifies, and the indices carried are consecutive",
+		Run: func(c *drv.Ctx, lo, hi int64) {
+			for i := lo; i < hi; i++ {
+				c.At(i)
+				seed := e1.Seed(6, c.Seed)
+				ref := refxmss.NewKey(seed[:], 4, refxmss.SHA2_256)
+				lib := xmss.NewXMSSFromSeed(seed, 4, xmss.SHA2_256, common.SHA256_2X)
+				pk := lib.GetPK()
+				for j := 0; j < 2; j++ {
+					sig, err := lib.Sign(msgs[j+1])
+					if err != nil || !bytes.Equal(sig, ref.Sign(uint32(j), msgs[j+1])) {
+						c.Fail(i, "signature-differs-from-reference before the giant call", map[string]any{"index": j})
+					}
+				}
+				giant, release := drv.GiantZeros(1<<32 + 5)
+				if giant == nil {
+					c.Cap("a 4 GiB no-reserve mapping was refused: giant-message-then-continue skipped")
+					c.Outcome("skipped")
+					continue
+				}
+				c.Tick()
+				var gsig []byte
+				var gerr error
+				how := drv.Call(func() { gsig, gerr = lib.Sign(giant) })
+				release()
+				c.Eval(1)
+				c.Nontrivial(1)
+				answered := how == "ok" && gerr == nil
+				c.Outcome(fmt.Sprintf("giant-call-answered=%v", answered))
+				next := uint32(2)
+				if answered {
+					next = 3
+					if bytes.Equal(gsig, ref.Sign(2, make([]byte, 5))) {
+						c.Fail(i, "giant-message-signed-as-its-5-byte-prefix", map[string]any{"message": "2^32+5 zero bytes", "index": 2})
+					}
+					if len(gsig) < 4 || gsig[3] != 2 {
+						c.Fail(i, "giant-message-signature-carries-wrong-index", map[string]any{"expected": 2})
+					}
+				}
+				first := true
+				for {
+					m := msgs[int(next)%len(msgs)]
+					var sig []byte
+					var err error
+					if r := drv.Call(func() { sig, err = lib.Sign(m) }); r != "ok" || err != nil {
+						break // exhaustion (C02 decides whether it came at the right moment)
+					}
+					c.Eval(1)
+					if len(sig) < 4 {
+						c.Fail(i, "short-signature-after-giant-call", nil)
+						break
+					}
+					idx := uint32(sig[0])<<24 | uint32(sig[1])<<16 | uint32(sig[2])<<8 | uint32(sig[3])
+					if first && !answered && idx != 2 && idx != 3 {
+						c.Fail(i, "index-after-unanswered-giant-call-is-neither-2-nor-3", map[string]any{"observed": idx})
+						break
+					}
+					if (!first || answered) && idx != next {
+						c.Fail(i, "indices-after-giant-call-not-consecutive", map[string]any{"expected": next, "observed": idx, "giant_call": how, "giant_err": fmt.Sprint(gerr)})
+						break
+					}
+					if idx >= 16 || !bytes.Equal(sig, ref.Sign(idx, m)) || !xmss.Verify(m, sig, pk) {
+						c.Fail(i, "signature-after-giant-call-differs-from-reference-or-does-not-verify", map[string]any{"index_carried": idx, "giant_call": how, "giant_err": fmt.Sprint(gerr),
+							"expected": "the reference signature of the message at the carried index (one refused or failed call must not leave index and traversal state out of step)"})
+						break
+					}
+					first = false
+					next = idx + 1
+				}
+				if next != 16 {
+					c.Fail(i, "key-did-not-reach-its-last-index-after-giant-call", map[string]any{"next_index": next})
+				}
+			}
+		}})
 	extra = append(extra, msgDomain("messages-seq-q", "q", mk([]int{4}, []int{0, 1, 3}), false))
 	extra = append(extra, msgDomain("messages-fresh-q", "q", mk([]int{4}, []int{2}), true))
 	extra = append(extra, msgDomain("messages-seq-t", "t", append(mk([]int{4, 6}, []int{0, 1, 2, 3}), mk([]int{8}, []int{4})...), false))
